@@ -29,7 +29,8 @@ ASSUMPTIONS = ["the closure walk checks name resolution of unexecuted paths, not
                "generated functions are those exec'ed from frames inside the mashumaro package"]
 BUDGET_S = {"quick": 150, "thorough": 1500}
 CASES_PER_PROCESS = {"quick": 500, "thorough": 1200}
-MIN_EVENTS = {"quick": {"evaluations": 4000, "functions_walked": 5000, "error_paths_provoked": 20000, "identity_checks": 1500},
+MIN_EVENTS = {"quick": {"evaluations": 4000, "functions_walked": 5000, "error_paths_provoked": 20000, "identity_checks": 1500, "passthrough_union_cases": 60,
+                        "module_name_ok": 100, "nested_specialisations_ok": 60, "foreign_default_ok": 60},
               "thorough": {"evaluations": 10000, "functions_walked": 15000, "error_paths_provoked": 60000, "identity_checks": 4000}}
 
 
@@ -61,9 +62,9 @@ def run_case(seed, tier, rec, st):
         foreign_default_case(rng, tier, rec, st)
     elif x < 0.09:
         nested_specialisations_case(rng, tier, rec, st)
-    elif x < 0.08:
+    elif x < 0.14:
         passthrough_union_case(rng, tier, rec, st)
-    elif x < 0.55:
+    elif x < 0.58:
         schema_case(rng, tier, rec, st)
     else:
         identity_case(rng, tier, rec, st)
@@ -574,6 +575,7 @@ def passthrough_union_case(rng, tier, rec, st):
     import decimal
     import uuid
     from mashumaro.codecs.basic import BasicEncoder
+    rec.count("passthrough_union_cases")
     fam = Family("c17p", future_annotations=False)
     other = Family("c17q")
     kind = rng.choice(["stdlib_short_name_is_module", "two_modules"])
